@@ -122,6 +122,10 @@ func (e *Engine) parseGoType(s string, pkg *types.Package) types.Type {
 		}
 		return nil
 	}
+	if s == "chanstruct" {
+		// contract spelling of "chan struct{}" (the contract tokenizer has no channel types)
+		return types.NewChan(types.SendRecv, types.NewStruct(nil, nil))
+	}
 	if obj := types.Universe.Lookup(s); obj != nil {
 		if tn, ok := obj.(*types.TypeName); ok {
 			return tn.Type()
@@ -1019,6 +1023,14 @@ func (ctx *EvalCtx) call(e *CExpr) TV {
 	case "methodid":
 		// methodid("<full method name>"): identity used in the spawn log for interface method spawns
 		return intTV(intLit(int64(vc.eng.methodID(e.Args[0].Name))))
+	case "funcid":
+		// funcid("<full function name>"): identity of a statically known function in the spawn log,
+		// e.g. funcid("(*github.com/enbility/spine-go/spine.HeartbeatManager).updateHeartbeatData")
+		fn := vc.eng.findFunction(e.Args[0].Name)
+		if fn == nil {
+			ctx.fail("funcid: no function %s", e.Args[0].Name)
+		}
+		return intTV(vc.funcRef(fn))
 	case "$cnt", "$idx":
 		lf := vc.lastFilter
 		if lf == nil || !lf.hasWhere {
@@ -1054,6 +1066,19 @@ func (ctx *EvalCtx) call(e *CExpr) TV {
 	case "held":
 		a, _ := ctx.addrOf(e.Args[0])
 		return boolTV(mkSelect(vc.comp(ctx.st, "held", "(Array Int Bool)"), a))
+	case "acquisitions":
+		// acquisitions(l): how often the mutex l has been acquired since function entry
+		if ctx.old == nil {
+			ctx.fail("acquisitions() needs a pre-state")
+		}
+		a, _ := ctx.addrOf(e.Args[0])
+		return intTV(app("-", mkSelect(vc.comp(ctx.st, "acq", "(Array Int Int)"), a), mkSelect(vc.comp(ctx.old, "acq", "(Array Int Int)"), a)))
+	case "locksUnchanged":
+		// the set of mutexes held is the same as at function entry
+		if ctx.old == nil {
+			ctx.fail("locksUnchanged() needs a pre-state")
+		}
+		return boolTV(mkEq(vc.comp(ctx.st, "held", "(Array Int Bool)"), vc.comp(ctx.old, "held", "(Array Int Bool)")))
 	case "closed":
 		return boolTV(mkSelect(vc.comp(ctx.st, "chclosed", "(Array Int Bool)"), arg(0).t))
 	case "int":
@@ -1170,6 +1195,11 @@ func (ctx *EvalCtx) methodCall(e *CExpr) TV {
 
 // pureApp applies the uninterpreted function standing for a pure method/function.
 func (vc *VC) pureApp(st *State, fc *FuncContract, fn *types.Func, recv *Term, recvSort string, args []*Term) *Term {
+	return vc.pureAppN(st, fc, fn, recv, recvSort, args, 0)
+}
+
+// pureAppN: the n-th result of a pure function (results beyond the first get their own symbol).
+func (vc *VC) pureAppN(st *State, fc *FuncContract, fn *types.Func, recv *Term, recvSort string, args []*Term, n int) *Term {
 	sig := fn.Type().(*types.Signature)
 	var sorts []string
 	var all []*Term
@@ -1185,10 +1215,13 @@ func (vc *VC) pureApp(st *State, fc *FuncContract, fn *types.Func, recv *Term, r
 		sorts = append(sorts, vc.sortOf(sig.Params().At(i).Type()))
 	}
 	all = append(all, args...)
-	rs := vc.sortOf(sig.Results().At(0).Type())
+	rs := vc.sortOf(sig.Results().At(n).Type())
 	name := quoteSym("pure:" + shortType(fc.Key))
+	if n > 0 {
+		name = quoteSym(fmt.Sprintf("pure:%s#%d", shortType(fc.Key), n))
+	}
 	d := fmt.Sprintf("(declare-fun %s (%s) %s)", name, strings.Join(sorts, " "), rs)
-	if !vc.declSeen[d] && fc.Const && recv != nil && recvSort == "Iface" && len(sorts) == 1 {
+	if n == 0 && !vc.declSeen[d] && fc.Const && recv != nil && recvSort == "Iface" && len(sorts) == 1 {
 		// a heap-independent getter of an object that existed at entry returns memory that existed at entry
 		vc.decl("(declare-const |wm@0| Int)")
 		var rb string
